@@ -140,10 +140,54 @@ Definition run_checks (failing flaky run skip names : list bytes) : option pat_e
        then Some Ambiguous
   else None.
 
+(* ---- the name set the validation block of run() works on (allPermutations) ----
+   The library names every case <suite>/<permutation components>/<simple name>; the extra
+   permutations run against the gRPC reference peers carry a marker component in front of the
+   simple name (addGRPCMarkerToName) and exist only for cases those peers support
+   (filterGRPCImplTestCases: the gRPC client speaks only gRPC, the gRPC server gRPC and gRPC-Web,
+   neither speaks Connect).  A suite here is (suite name, protocol 1=Connect 2=gRPC 3=gRPC-Web,
+   simple case names); every suite has one relevant HTTP version / codec / compression, so the
+   only permutation component is TLS:false. *)
+Definition suite_d := (bytes * N * list bytes)%type.
+
+Definition grpc_marker (cg sg : bool) : bytes :=
+  if cg && sg then bs "(grpc impls)" else if cg then bs "(grpc client impl)" else bs "(grpc server impl)".
+
+Definition name_prefix (su : bytes) : bytes := su ++ slash :: bs "TLS:false" ++ [slash].
+Definition base_name (su simple : bytes) : bytes := name_prefix su ++ simple.
+Definition marked_name (cg sg : bool) (su simple : bytes) : bytes :=
+  name_prefix su ++ grpc_marker cg sg ++ slash :: simple.
+
+Definition grpc_supported (proto : N) (cg sg : bool) : bool :=
+  if cg && negb (proto =? 2) then false else negb (proto =? 1).
+
+Definition base_names (suites : list suite_d) : list bytes :=
+  flat_map (fun s : suite_d => let '(su, _, cs) := s in map (base_name su) cs) suites.
+Definition marked_names (cg sg : bool) (suites : list suite_d) : list bytes :=
+  flat_map (fun s : suite_d => let '(su, proto, cs) := s in
+              if grpc_supported proto cg sg then map (marked_name cg sg su) cs else []) suites.
+
+(* testCaseLib.allPermutations(useReferenceClient, useReferenceServer) *)
+Definition perm_names (suites : list suite_d) (refc refs : bool) : list bytes :=
+  base_names suites
+  ++ (if refc then marked_names true false suites else [])
+  ++ (if refs then marked_names false true suites else [])
+  ++ (if refc && refs then marked_names true true suites else []).
+
+Definition run_checks_perms (failing flaky run skip : list bytes) (suites : list suite_d) (refc refs : bool)
+  : option pat_err :=
+  run_checks failing flaky run skip (perm_names suites refc refs).
+
 (* cmd/connectconformance: parsePatternFile and argsToPatterns *)
+(* bytes.TrimSpace; the same function as Base.trim_space (C08_Proofs.trim_space_lin_eq) with the two
+   reversals done by rev_append, so that a line of several hundred KiB costs linear time in the
+   extracted model too *)
+Definition trim_space_lin (s : bytes) : bytes :=
+  rev_append (trim_left (rev_append (trim_left s) [])) [].
+
 Definition parse_pattern_file (data : bytes) : list bytes :=
   filter (fun l => match l with [] => false | c :: _ => negb (N.eqb c 35) end)
-         (map trim_space (split_on 10 data)).
+         (map trim_space_lin (split_on 10 data)).
 
 Inductive arg := Lit (s : bytes) | AtFile (contents : bytes).
 Definition expand_arg (a : arg) : list bytes :=
@@ -189,6 +233,20 @@ Definition run_c08_checks (args : list sx) : sx :=
     ret (sx_pat_err (run_checks f k r s ns))
   | _ => None end).
 
+Definition un_suite_d (s : sx) : option suite_d :=
+  match s with
+  | L [B su; I p; cs] => do cs <- un_bytes_list cs; ret (su, Z.to_N p, cs)
+  | _ => None
+  end.
+
+Definition run_c08_checks2 (args : list sx) : sx :=
+  or_bad (match args with
+  | [f; k; r; s; sus; I refc; I refs] =>
+    do f <- un_bytes_list f; do k <- un_bytes_list k; do r <- un_bytes_list r;
+    do s <- un_bytes_list s; do sus <- un_listof un_suite_d sus;
+    ret (sx_pat_err (run_checks_perms f k r s sus (negb (Z.eqb refc 0)) (negb (Z.eqb refs 0))))
+  | _ => None end).
+
 Definition un_arg (s : sx) : option arg :=
   match s with
   | L [I 0%Z; B b] => Some (Lit b)
@@ -210,5 +268,6 @@ Definition c08_table : list (bytes * (list sx -> sx)) :=
   [ (bs "c08.trie", run_c08_trie);
     (bs "c08.accept", run_c08_accept);
     (bs "c08.checks", run_c08_checks);
+    (bs "c08.checks2", run_c08_checks2);
     (bs "c08.args", run_c08_args);
     (bs "c08.file", run_c08_file) ].
